@@ -42,7 +42,9 @@ def run(ctx):
             pairs = [(P, Q) for P in pts for Q in pts]
             if p >= 11 and len(pairs) > 150:
                 pairs = rnd.sample(pairs, 150) + [(P, P) for P in pts] + [(P, (P[0], (-P[1]) % p)) for P in pts if P]
-            jobs.append(((p, a, b), pairs, reps_full, ctx.seed))
+            # the coefficient a is handed to CurveFp as the residue in [0, p-1] or as the negative representative a - p
+            # (the library's own NIST curves are declared with a = -3)
+            jobs.append(((p, a - p if (a + b + ctx.seed) % 2 and a else a, b), pairs, reps_full, ctx.seed))
     if quick:
         for (pp, a, b) in rnd.sample(groupdrv.all_curves(11), 12):
             pts = [None] + toy.t_points(11, a, b)
@@ -60,6 +62,7 @@ def run(ctx):
                                                                           ("aff", ("jac", 5)), (("jac", 7), "aff"),
                                                                           ("negneg", ("jac", 1)), (("jac", 2), "negneg")]
         jobs.append(((p, a % p, b), pairs, reps, ctx.seed))
+        jobs.append(((p, a % p - p, b), pairs[:len(mult) * 2 + 6], reps, ctx.seed))        # a given as a negative integer
     events, keys = [], []
     with cf.ProcessPoolExecutor(max_workers=core.NCPU) as ex:
         for evs, ks in ex.map(groupdrv.add_events, jobs, chunksize=4):
